@@ -186,9 +186,27 @@ def resolve(node, shared_nodes):
     return node
 
 
+def gen_deep(rnd):
+    """a chain of nested pipelines far deeper than anything written by hand: every level sets an attribute or formats, descends, then
+    delivers to a sink of its own - the in-order prediction has no depth limit"""
+    depth = rnd.choice([17, 33, 63, 64, 65, 66, 100, 129, 257, 300])
+    node = Node("p", scoped=rnd.random() < 0.5, via=0, kids=[gen_atom(rnd), Node("s", rnd.randint(0, 59))])
+    for lvl in range(depth - 1):
+        kids = [Node(rnd.choice("am"), rnd.randint(0, 59)), node, Node("s", rnd.randint(0, 59))]
+        if rnd.random() < 0.1:
+            kids.insert(1, Node("f", rnd.randint(0, 59)))
+        node = Node("p", scoped=rnd.random() < 0.5, via=rnd.choice([0, 1, 2]), kids=kids)
+    return node
+
+
 def gen_case(rnd):
     budget = [40]
     shared = []
+    if rnd.random() < 0.004:
+        root = gen_deep(rnd)
+        msgs = [({"type": rnd.randrange(5), "line": i, "file": b"f.cpp", "func": b"fn", "cat": b"c", "text": "m%d" % i, "attrs": []}, None)
+                for i in range(rnd.randint(1, 3))]
+        return {"shared_txt": "0", "body": "T " + enc_node(root), "shared": [], "root": root, "msgs": msgs, "deep": True}
     for _ in range(rnd.choice([0, 0, 1, 2, 3])):
         if rnd.random() < 0.25:
             shared.append(gen_tree(rnd, 3, [6], [], False))
